@@ -216,3 +216,87 @@ class create_type_with_length:
     def raises(name):
         # rule: only string types may specify a length
         return {RuntimeError: name != "string" and name != "encoded_string"}
+
+
+# ---- one-directional leaf guards (must_raise): a normal return implies the rule's condition did not
+# hold on entry; string building / builders / XML accessors are opaque calls that may return anything
+# and may raise
+OCG = "protocol_code_generator.generate.object_code_generator.ObjectCodeGenerator"
+
+
+def XBOOL(element, name, default):
+    """protocol XML boolean attribute (xml_utils.get_boolean_attribute): pure function of its arguments"""
+    t = element.get(name)
+    return default if t is None else t.lower() == "true"
+
+
+@contract("protocol_code_generator.util.xml_utils.get_boolean_attribute")
+class get_boolean_attribute:
+    trusted = True
+    sorts = dict(element="record()", name="pystr", default_value="bool", result="bool")
+
+    def ensures(element, name, default_value, result):
+        return [result == XBOOL(element, name, default_value)]
+
+
+@contract(OCG + ".generate_instruction")
+class generate_instruction:
+    properties = ["C17"]
+    sorts = dict(instruction="record(tag=pystr)")
+    opaque_calls = "mayraise"
+    modifies = ["self._context.reached_optional_field", "self._context.reached_dummy",
+                "self._context.chunked_reading_enabled"]
+
+    def must_raise(self):
+        # rule: nothing may follow a <dummy>, whatever kind of instruction it is
+        return {RuntimeError: self._context.reached_dummy}
+
+
+@contract(OCG + "._generate_field")
+class generate_field_:
+    properties = ["C17"]
+    sorts = dict(protocol_field="record()")
+    opaque_calls = "mayraise"
+    modifies = ["self._context.reached_optional_field"]
+
+    def must_raise(self, protocol_field):
+        # rule: a required field may not follow an optional one
+        return {RuntimeError: self._context.reached_optional_field and not XBOOL(protocol_field, "optional", False)}
+
+
+@contract(OCG + "._generate_length")
+class generate_length_:
+    properties = ["C17"]
+    sorts = dict(protocol_length="record()")
+    opaque_calls = "mayraise"
+    modifies = ["self._context.reached_optional_field"]
+
+    def must_raise(self, protocol_length):
+        return {RuntimeError: self._context.reached_optional_field and not XBOOL(protocol_length, "optional", False)}
+
+
+@contract(OCG + "._generate_array")
+class generate_array_:
+    properties = ["C17"]
+    sorts = dict(protocol_array="record()")
+    opaque_calls = "mayraise"
+    modifies = ["self._context.reached_optional_field"]
+
+    def must_raise(self, protocol_array):
+        # rules: required array after an optional field; delimited array outside a chunked section
+        return {RuntimeError: (self._context.reached_optional_field and not XBOOL(protocol_array, "optional", False))
+                or (XBOOL(protocol_array, "delimited", False) and not self._context.chunked_reading_enabled)}
+
+
+@contract(OCG + "._generate_break")
+class generate_break_:
+    properties = ["C17"]
+    opaque_calls = "noraise"
+    modifies = ["self._context.reached_optional_field", "self._context.reached_dummy"]
+
+    def raises(self):
+        # rule: <break> only inside a chunked section
+        return {RuntimeError: not self._context.chunked_reading_enabled}
+
+    def ensures(self):
+        return [not self._context.reached_optional_field, not self._context.reached_dummy]
